@@ -276,7 +276,7 @@ def brief(post, k):
 
 # ---------------------------------------------------------------------------
 # T: traces recorded from the implementation
-NAMEPOOL = ["a", "b-c", "b_c", "z9", "k-1", "k_1", "Q", "2th", "y.c"]
+NAMEPOOL = ["a", "b-c", "b_c", "z9", "k-1", "k_1", "Q", "2th", "y.c", "fit_tolerance_of_the_second_detector_tilt_x", "o11", "o12", "wedge", "t_x", "chi"]
 
 
 def record_traces(n, maxlen, seed, wd):
@@ -284,7 +284,7 @@ def record_traces(n, maxlen, seed, wd):
     names = st.sampled_from(NAMEPOOL)
     ints = st.one_of(st.integers(-5, 5), st.integers(-2 ** 62, 2 ** 62))
     floats = st.floats(allow_nan=False, allow_infinity=False, width=64)
-    plains = st.sampled_from(["ab", "xy", "x-y.z", "tilt_x", "1e", "0x1f", "--", "e5", "1.2.3", "+-1", "#ff8800", "#", "#12", ";x", "%a", "!b", "//c"])
+    plains = st.sampled_from(["ab", "xy", "x-y.z", "tilt_x", "1e", "0x1f", "--", "e5", "1.2.3", "+-1", "#ff8800", "#", "#12", ";x", "%a", "!b", "//c", "x" * 41, "/data/visitor/ma1234/id11/sample_7/edf/"])
     # value spec: (kind, payload)
     vals = st.one_of(ints.map(lambda i: ("int", i)), floats.map(lambda f: ("float", f)),
                      plains.map(lambda s: ("str_plain", s)), st.just(("str_empty", None)),
